@@ -264,11 +264,110 @@ C06All(u) == { C06Full(v, b, r[1], r[2]) : v \in Variants, b \in Bases, r \in {<
           \cup { C06Dest(v, b, dt, dd) : v \in Variants, b \in {BaseMid}, dt \in {1, 2, 5, 8}, dd \in {500, 29000, 31000, 95000} }
 
 ---------------------------------------------------------------------------
+(***************************************************************************)
+(* C08 (wire level): silence, floods of irrelevant packets, bursts, and    *)
+(* every cancellation instant of a small grid (ties with the poll grid,    *)
+(* the send grid and the global timeout included).                         *)
+(***************************************************************************)
+C08Base(v, b) == Common(v, TRUE, b, 1, 4)
+C08Silence(v) == C08Base(v, BaseMid) @@ [id |-> "C08/" \o v \o "/silence", label |-> v \o "/silence", path |-> PathOf([t \in 1..4 |-> <<>>])]
+C08Flood(v, kind, n) ==
+    C08Base(v, BaseMid) @@ [id |-> "C08/" \o v \o "/flood/" \o kind \o "/" \o ToString(n), label |-> v \o "/flood/" \o kind,
+                            flood_n |-> n, flood_us |-> 5000, flood_kind |-> kind, path |-> Background(v, 1, 4, 0, {2})]
+C08Sack(mode) ==
+    C08Base("sack", BaseMid) @@ [id |-> "C08/sack/" \o mode, label |-> "sack/" \o mode, path |-> PathOf([t \in 1..4 |-> <<>>]),
+                                 no_synack |-> (mode = "no_synack"), sack_perm |-> (mode # "no_sackperm"),
+                                 synack_us |-> IF mode = "late_synack" THEN 499000 ELSE 0]
+CancelGridUs == {1, 5000, 20000, 40000, 100000, 123456, 200000, 399999, 400000, 479999, 480000, 480001, 560000}
+C08Cancel(v, c, answered) ==
+    C08Base(v, BaseMid) @@ [id |-> "C08/" \o v \o "/cancel/" \o ToString(c) \o (IF answered THEN "/path" ELSE "/silent"),
+                            label |-> v \o "/cancel", cancel_us |-> c,
+                            path |-> IF answered THEN Background(v, 1, 4, 4, {}) ELSE PathOf([t \in 1..4 |-> <<>>])]
+C08All(u) ==
+    { C08Silence(v) : v \in Variants }
+    \cup { C08Flood(v, k, n) : v \in Variants, k \in {"foreign_te", "junk", "foreign_tcp"}, n \in {3, 40} }
+    \cup { C08Sack(m) : m \in {"no_synack", "late_synack", "no_sackperm"} }
+    \cup { C08Cancel(v, c, a) : v \in {"icmp4", "icmp6", "sack"}, c \in CancelGridUs, a \in BOOLEAN }
+
+---------------------------------------------------------------------------
+(***************************************************************************)
+(* C09: junk classes.  A junk packet is a genuine reply (about TTL 3,      *)
+(* which the background path leaves silent) damaged by truncation, byte    *)
+(* patches or garbage; it is injected at a TLC-chosen instant of a run     *)
+(* that is paired with its noise-free twin.                                *)
+(***************************************************************************)
+Junk(label, form, patch, trunc, app) == [label |-> label, form |-> form, patch |-> patch, trunc |-> trunc, append |-> app]
+IPHdr(v) == IF IsV6(v) THEN 40 ELSE 20
+JunkSet(v) ==
+    LET forms == {"te", DestForm1(v)} \cup (IF v \in {"tcp", "tcp_paris"} THEN {"rst"} ELSE {})
+        h == IPHdr(v)
+    IN  \* every truncation length of every genuine reply form
+        { Junk(f \o "/trunc" \o ToString(n), f, <<>>, n, 0) : f \in forms, n \in 1..95 }
+        \* version nibble, header length nibble
+        \cup { Junk(f \o "/ver" \o ToString(x), f, <<<<0, x * 16 + 5>>>>, 0, 0) : f \in forms, x \in (0..15) \ {IF IsV6(v) THEN 6 ELSE 4} }
+        \cup (IF IsV6(v) THEN
+                  \* payload length lies, next-header chains that are too short / unknown
+                  { Junk(f \o "/plen" \o ToString(x), f, <<<<4, x \div 256>>, <<5, x % 256>>>>, 0, 0) : f \in forms, x \in {0, 1, 7, 65535} }
+                  \cup { Junk(f \o "/nh" \o ToString(x), f, <<<<6, x>>>>, 0, 0) : f \in forms, x \in {0, 43, 44, 50, 60, 59, 255} }
+              ELSE
+                  { Junk(f \o "/ihl" \o ToString(x), f, <<<<0, 64 + x>>>>, 0, 0) : f \in forms, x \in (0..15) \ {5} }
+                  \cup { Junk(f \o "/totlen" \o ToString(x), f, <<<<2, x \div 256>>, <<3, x % 256>>>>, 0, 0) : f \in forms, x \in {0, 19, 20, 27, 65535} }
+                  \cup { Junk(f \o "/frag", f, <<<<6, 32>>, <<7, 9>>>>, 0, 0) : f \in forms }
+                  \cup { Junk(f \o "/proto" \o ToString(x), f, <<<<9, x>>>>, 0, 0) : f \in forms, x \in {0, 2, 41, 47, 50, 132, 255} })
+        \* the quoted header of an ICMP error: version / length nibble, quoted protocol
+        \cup { Junk("te/qver" \o ToString(x), "te", <<<<h + 8, x>>>>, 0, 0) : x \in {0, 15, 64, 69, 70, 79, 96, 255} }
+        \* TCP data offset lies on direct TCP replies
+        \cup (IF v \in {"tcp", "tcp_paris", "sack"}
+              THEN { Junk(DestForm1(v) \o "/doff" \o ToString(x), DestForm1(v), <<<<h + 12, x * 16>>>>, 0, 0) : x \in {0, 1, 4, 15} }
+                   \cup { Junk(DestForm1(v) \o "/optlen" \o ToString(x), DestForm1(v), <<<<h + 21, x>>>>, 0, 0) : x \in {0, 1, 255} }
+              ELSE {})
+        \* valid headers followed by garbage
+        \cup { Junk(f \o "/garbage" \o ToString(n), f, <<>>, 0, n) : f \in forms, n \in {1, 7, 400, 900} }
+
+C09Clean(v, s, b) == Common(v, s, b, 1, 4) @@ [id |-> "C09/" \o v \o "/" \o b.name \o "/clean", label |-> v \o "/clean", path |-> Background(v, 1, 4, 4, {3})]
+\* batches of junk (all of it must be ignored, so one run absorbs many); the check re-runs a violating batch one packet at a time
+C09Noisy(v, s, b, js, k, at) ==
+    Common(v, s, b, 1, 4) @@
+    [id |-> "C09/" \o v \o "/" \o b.name \o "/noisy/" \o ToString(k) \o "/" \o ToString(at), twin |-> "C09/" \o v \o "/" \o b.name \o "/clean",
+     label |-> v \o "/junk-batch", path |-> Background(v, 1, 4, 4, {3}),
+     inject |-> [i \in 1..Len(js) |-> [at_us |-> at + 37 * i, for_ttl |-> 3, form |-> js[i].form, from |-> Foreign(v, 100 + (i % 100)),
+                                       patch |-> js[i].patch, trunc |-> js[i].trunc, append |-> js[i].append, tag |-> js[i].label]]]
+Chunks(sq, n) == [k \in 1..((Len(sq) + n - 1) \div n) |-> SubSeq(sq, (k - 1) * n + 1, IF k * n > Len(sq) THEN Len(sq) ELSE k * n)]
+C09All(u) ==
+    UNION { LET ch == Chunks(SetToSeq(JunkSet(v)), 20) IN
+            { C09Clean(v, TRUE, BaseMid) } \cup { C09Noisy(v, TRUE, BaseMid, ch[k], k, at) : k \in DOMAIN ch, at \in {500, 30000, 200000} }
+          : v \in Variants }
+
+---------------------------------------------------------------------------
+(***************************************************************************)
+(* C10: fault injection points: the k-th call of every Source/Sink         *)
+(* operation and of the two constructors x error class.                    *)
+(***************************************************************************)
+FaultPoints(v) ==
+    { [op |-> "newsink", k |-> 1, class |-> "fatal"], [op |-> "newsource", k |-> 1, class |-> "fatal"],
+      [op |-> "setfilter", k |-> 1, class |-> "fatal"] }
+    \cup (IF v = "sack" THEN { [op |-> "setfilter", k |-> 2, class |-> "fatal"] } ELSE {})
+    \cup { [op |-> "setdeadline", k |-> k, class |-> "fatal"] : k \in {1, 2, 3, 6} }
+    \cup { [op |-> "read", k |-> k, class |-> c] : k \in {1, 2, 3, 4, 7}, c \in {"fatal", "zero", "deadline"} }
+    \cup { [op |-> "write", k |-> k, class |-> "fatal"] : k \in {1, 2, 3, 4} }
+    \cup { [op |-> "close_sink", k |-> 1, class |-> "fatal"], [op |-> "close_source", k |-> 1, class |-> "fatal"] }
+C10Scen(v, f, answered) ==
+    Common(v, TRUE, BaseMid, 1, 4) @@
+    [id |-> "C10/" \o v \o "/" \o f.op \o "/" \o ToString(f.k) \o "/" \o f.class \o (IF answered THEN "/path" ELSE "/silent"),
+     label |-> v \o "/" \o f.op \o "#" \o ToString(f.k) \o "/" \o f.class,
+     faults |-> <<f>>, path |-> IF answered THEN Background(v, 1, 4, 4, {2}) ELSE PathOf([t \in 1..4 |-> <<>>])]
+C10All(u) == UNION { { C10Scen(v, f, a) : f \in FaultPoints(v), a \in BOOLEAN } : v \in Variants }
+                \cup { Common(v, TRUE, BaseMid, 1, 4) @@ [id |-> "C10/" \o v \o "/nofault", label |-> v \o "/nofault", path |-> Background(v, 1, 4, 4, {2})] : v \in Variants }
+
+---------------------------------------------------------------------------
 Cases == CASE Gen = "C01" -> C01All(0)
            [] Gen = "C02" -> C02All(NMax)
            [] Gen = "C04" -> C04All(0)
            [] Gen = "C05" -> C05All(0)
            [] Gen = "C06" -> C06All(0)
+           [] Gen = "C08" -> C08All(0)
+           [] Gen = "C09" -> C09All(0)
+           [] Gen = "C10" -> C10All(0)
            [] OTHER -> {}
 
 Sampled == Gen \in {"C02"}      \* families that sample their parameter space themselves
